@@ -449,45 +449,37 @@ def run(prog, tier, extra=None):
     # segments are exactly those ancestries. Each hash pushed onto a segment must come from the tip argument, from a stored block's
     # previous_block_hash, or from the longest-chain index; BlockRing::get_block_hash_by_block_id and RingItem.block_hashes answer
     # "some block at this height" (the first one stored), which is a different block after a reorganisation.
-    from ..expr import Chaser as _Ch8, has_field as _hf8, show as _sh8, walk as _wk8
+    from ..expr import Chaser as _Ch8, walk as _wk8
     for seg in ("calculate_old_chain_for_add_block", "calculate_new_chain_for_add_block"):
         sb = prog.body(BC + seg)
         if sb is None:
             raise LookupError("Blockchain::%s not found" % seg)
-        ch8 = _Ch8(sb)
-        pushes = [(bb, t) for bb, t in sb.calls() if (call_name(t) or "").endswith("Vec::<T, A>::push") or (call_name(t) or "").rsplit("::", 1)[-1] in ("push", "push_front", "insert", "extend", "extend_from_slice")]
-        n8 = 0
-        for bb, t in pushes:
-            if len(t["args"]) < 2:
-                continue
-            val = ch8.origin(t["args"][-1])
-            srcs, seen, work = [], set(), [val]
-            while work:
-                e = work.pop()
-                for y in _wk8(e):
-                    if y[0] == "local" and y[1] not in seen:
-                        seen.add(y[1])
-                        for d in sb.defs(y[1]):
-                            work.append(ch8.rvalue(d[3], 0) if d[0] == "stmt" else ch8.call(d[2], d[1], 0) if d[0] == "call" else ("unknown",))
-                srcs.append(e)
-            if not any("[u8; 32]" in str(sb.ty_str(y[1])) for e in [val] for y in _wk8(e) if y[0] in ("local", "param")) and not any(y[0] == "param" for y in _wk8(val)):
-                continue
-            n8 += 1
-            res.instance(R8)
-            bad = None
-            for e in srcs:
-                for y in _wk8(e):
-                    if y[0] in ("call", "via") and "blockring::BlockRing::" in y[1] and not y[1].endswith("get_longest_chain_block_hash_at_block_id"):
-                        bad = y[1].rsplit("::", 1)[-1]
-                    if y[0] == "field" and y[2].endswith("ringitem::RingItem") and y[3] == "block_hashes":
-                        bad = "RingItem.block_hashes"
-            if bad:
-                res.add(Finding(R8, "C03.chain-segments|%s|%s" % (seg, bad), "Blockchain::%s collects a hash obtained from %s: that is the first block stored at a height, not the one on "
-                                "the chain being walked; after a reorganisation the wrong blocks are unwound/wound and the ledger no longer matches the tip's ancestry" % (seg, bad), sb.loc(bb)))
-            else:
-                res.sample({"rule": R8, "segment": seg, "push": sb.loc(bb), "sources": "tip argument / previous_block_hash / longest-chain index"})
-        if n8 == 0:
-            res.add(Finding(R8, "C03.chain-segments|%s|anchors" % seg, "Blockchain::%s no longer pushes block hashes onto its segment (anchor moved?)" % seg, sb.loc(0)))
+        # the builder and its closures (`successors(.., |hash| ..)`, `take_while`, ...): every hash they can yield is read here
+        bodies8 = [sb] + [b for p, b in prog.bodies.items() if p.startswith(BC + seg + "::{closure") and not b.is_promoted]
+        res.instance(R8)
+        bad, follows_links = None, False
+        for b8 in bodies8:
+            ch8 = _Ch8(b8)
+            for bb, t in b8.calls():
+                n = call_name(t) or ""
+                if "blockring::BlockRing::" in n and not n.endswith("get_longest_chain_block_hash_at_block_id"):
+                    bad = bad or (n.rsplit("::", 1)[-1], b8, bb)
+            for bb, blk in enumerate(b8.blocks):
+                for st in blk["s"]:
+                    if st[0] != "=":
+                        continue
+                    for y in _wk8(ch8.rvalue(st[2], 0)):
+                        if y[0] == "field" and y[2].endswith("ringitem::RingItem") and y[3] == "block_hashes":
+                            bad = bad or ("RingItem.block_hashes", b8, bb)
+                        if y[0] == "field" and y[2].endswith("block::Block") and y[3] == "previous_block_hash":
+                            follows_links = True
+        if bad:
+            res.add(Finding(R8, "C03.chain-segments|%s|%s" % (seg, bad[0]), "Blockchain::%s collects a hash obtained from %s: that is the first block stored at a height, not the one on "
+                            "the chain being walked; after a reorganisation the wrong blocks are unwound/wound and the ledger no longer matches the tip's ancestry" % (seg, bad[0]), bad[1].loc(bad[2])))
+        elif not follows_links:
+            res.add(Finding(R8, "C03.chain-segments|%s|anchors" % seg, "Blockchain::%s no longer follows previous_block_hash (anchor moved?)" % seg, sb.loc(0)))
+        else:
+            res.sample({"rule": R8, "segment": seg, "bodies": len(bodies8), "sources": "tip argument / previous_block_hash / longest-chain index only"})
     res.explanation = (
         "Decides the lockstep and ownership structure without which the four views (UTXO set, by-height index, per-block flag, wallet) cannot describe the same chain: "
         "exactly-once, same-direction updates of all four in wind_chain (after an accepting validate) and unwind_chain, who may mutate a UtxoSet, who may call the "
